@@ -39,6 +39,22 @@ CLAIMED["C12"] = dict(
   technique="bounded symbolic execution of go/ssa with SMT-decided panic checks, counterexamples replayed natively with recover",
   ref="4-C12")
 
+CLAIMED["C09"] = dict(
+  text="Bounded symbolic verification (SMT over go/ssa). Stateful.match and the signed-token audience test matchGroup are shown EQUIVALENT to a direct specification of scope (equal, or covering subgroups and an ancestor by whole path components) for all byte strings up to the bound - the region where 'a' vs 'ab', trailing slashes and empty components live; Stateful.Check with a symbolic clock: success only with an expiry in the future and a not-before in the past, never for another group, and it returns exactly the token's permissions and username.",
+  note="Bounds: token group 0..3 (thorough 5) bytes, target 1..5 (8) bytes, all byte values; clock any instant 1970-2200, offsets within +-1 year and >2 s away from the clock (so a counterexample replays under the real clock). Outside: signature verification and key/alg selection inside golang-jwt (library, stub would only restate its contract), url.Parse, JSON; Description.GetPermission's token branch (username override / duplicate rule) needs token.Parse stubbed and is listed in DESIGN 4-C09 as not yet encoded. Trusted: go/ssa, gosmt, z3/cvc5, the time.Now contract stub.",
+  technique="bounded symbolic execution of go/ssa with SMT (reference-equivalence on all byte strings up to the bound; symbolic clock)",
+  ref="4-C09")
+CLAIMED["C18"] = dict(
+  text="Bounded symbolic verification (SMT over go/ssa) of the conditional-request kernel: etagMatch is SOUND for every header value up to the bound (a match is reported only if the current tag occurs literally in the header, or '*' and the object exists; a non-existent object never matches), behaves per RFC 7232 on well-formed lists/weak tags/'*', and checkPreconditions implements the status table (412 / 304 / proceed) for every method and header pair. This is the decision on which 'a write with If-Match succeeds only if unchanged' rests.",
+  note="Bounds: headers 0..6 (thorough 9) bytes over all byte values, tags with 1-2 body bytes; precondition table with header values 0..3 (5) bytes. NOT decided here (stated plainly): the re-check of the tag under groups.mu in group.UpdateDescription/UpdateUser/..., the racing-writers clause and the temp-file+rename crash atomicity - they need a file-system model and threads that this engine does not have (DESIGN 4-C18 c,d). Trusted: go/ssa, gosmt, z3/cvc5, http.Header.Get modelled as a map lookup.",
+  technique="bounded symbolic execution of go/ssa with SMT (soundness and completeness obligations over all header byte strings up to the bound)",
+  ref="4-C18")
+CLAIMED["C19"] = dict(
+  text="Bounded symbolic verification (SMT over go/ssa). validGroupName/validUsername are shown EQUIVALENT to the direct specification (non-empty, no backslash, no empty/'.'/'..' component) on every byte string up to the bound, with the real path.Clean executed symbolically; every file name getDescriptionFile probes for ANY input (valid or not) stays under Directory with no '..' component; parseGroupName returns only names the group layer accepts. All 256 byte values incl. NUL, '%', UTF-8 lead/continuation bytes.",
+  note="Bounds: strings of 0..6 / 0..5 / 0..5 bytes (thorough 9 / 8 / 8). Outside: os.Root confinement of static files and recordings (kernel), diskwriter.sanitise (strings.Replacer machinery), the delete-form filename check in webserver (needs the http.Request form machinery), longer names (path.Clean is a byte loop: cost 3^L paths). Trusted: go/ssa, gosmt, z3/cvc5.",
+  technique="bounded symbolic execution of go/ssa with SMT (reference-equivalence on all byte strings up to the bound)",
+  ref="4-C19")
+
 NOT_APPLICABLE = {
 }
 
